@@ -492,6 +492,13 @@ def commit (fixed : Bool) (cap : Nat) (st : CState) (k : Key) (it : Item) (choic
     | .panic => .panic
     | .ok out => .ok ⟨addItem out.st k it, acc.paths, out.evicted⟩
 
+/-- the commit section after the F10 fix (the removed entry's length is subtracted also when it
+    equals the new item) -/
+abbrev commitFixed := commit true
+
+/-- the commit section before the F10 fix (kept for the witness schedule `C13_prefix_F10_witness`) -/
+abbrev commitPrefix := commit false
+
 def indexOfItem : List Cell → Item → Option Nat
   | [], _ => none
   | c :: cs, it => if c.item = it then some 0 else (indexOfItem cs it).map (· + 1)
